@@ -246,6 +246,106 @@ theorem apT_getElem (ap : AP) (axes : List Int) (hr : ap.shape.length ≤ 5)
   simp only [hlen, hemp, hnse, hnv, Bool.false_eq_true, if_false, hsh, hst, hni', bne_self_eq_false,
     Bool.and_false, Bool.false_and, bind, Except.bind, pure, Except.pure]
 
+/-! ### `AP.T` of a two-dimensional vector -/
+
+/-- a two-dimensional vector has one axis of extent one and one longer axis -/
+theorem isVector_two (a b : Int) (hv : isVector [a, b] = true) : (a = 1 ∧ 1 < b) ∨ (b = 1 ∧ 1 < a) := by
+  simp only [isVector, isColVec, isRowVec, List.length_cons, List.length_nil, Bool.or_eq_true, Bool.and_eq_true,
+    beq_iff_eq, decide_eq_true_eq] at hv
+  omega
+
+/-- `AP.T` of a two-dimensional vector (no axes = the reversal, or the axes `(1, 0)`): the shape is swapped, the axis
+    that holds the elements keeps its stride -/
+theorem apT_vector2 (ap : AP) (a b s0 s1 : Int) (hsh : ap.shape = [a, b]) (hst : ap.strides = [s0, s1])
+    (hv : isVector [a, b] = true) (axes : List Int) (hax : axes = [] ∨ axes = [1, 0]) :
+    ap.T axes = .ok (.ok { shape := [b, a], strides := vectorTStrides b s0 s1, fin := true,
+                           o := { ap.o with transposed := true } } [1, 0]) := by
+  have hnse : isScalarEquiv [a, b] = false := by
+    rcases isVector_two a b hv with ⟨h1, h2⟩ | ⟨h1, h2⟩
+    · have : (b == 1) = false := by simp; omega
+      simp [isScalarEquiv, this]
+    · have : (a == 1) = false := by simp; omega
+      simp [isScalarEquiv, this]
+  have hm : isMonotonicInts [1, 0] = (false, false) := by decide
+  rcases hax with rfl | rfl
+  · unfold AP.T
+    simp [hsh, hst, hnse, hv, rangeI, hm, List.range, List.range.loop, pure, Except.pure]
+  · unfold AP.T
+    simp [hsh, hst, hnse, hv, hm, pure, Except.pure]
+
+/-- the transposed vector addresses the same cells: element `(i, j)` of the result is element `(j, i)` of the
+    source, whatever the source's strides are -/
+theorem vectorT_dot (a b s0 s1 i j : Int) (hv : isVector [a, b] = true)
+    (hi : 0 ≤ i ∧ i < b) (hj : 0 ≤ j ∧ j < a) :
+    dot [i, j] (vectorTStrides b s0 s1) = dot [j, i] [s0, s1] := by
+  rcases isVector_two a b hv with ⟨h1, h2⟩ | ⟨h1, h2⟩
+  · have hj0 : j = 0 := by omega
+    subst hj0
+    simp [vectorTStrides, h2, dot]
+  · have hi0 : i = 0 := by omega
+    subst hi0
+    have : ¬ b > 1 := by omega
+    simp [vectorTStrides, this, dot]
+
+/-! ### `Transpose()` of a vector with a pending transpose: no data movement, same addresses -/
+
+theorem copyPrefix_full : ∀ (ds es : List Int), es.length = ds.length → Dense.copyPrefix ds es = es
+  | [], [], _ => rfl
+  | [], _ :: _, h => by simp at h
+  | _ :: _, [], h => by simp at h
+  | _ :: ds, e :: es, h => by
+    simp only [Dense.copyPrefix]
+    rw [copyPrefix_full ds es (by simpa using h)]
+
+theorem vectorKeepStrides_length : ∀ (sh : Shape) (es ss : List Int),
+    (Dense.vectorKeepStrides sh es ss).length = es.length
+  | [], _, _ => by simp [Dense.vectorKeepStrides]
+  | _ :: _, [], _ => by simp [Dense.vectorKeepStrides]
+  | _ :: _, _ :: _, [] => by simp [Dense.vectorKeepStrides]
+  | _ :: ds, _ :: es, _ :: ss => by
+    simp only [Dense.vectorKeepStrides, List.length_cons]
+    rw [vectorKeepStrides_length ds es ss]
+
+/-- the strides installed for a vector address the same cell as the strides it had, for every in-box coordinate:
+    an axis of extent one only ever sees the coordinate 0, every other axis keeps its stride -/
+theorem vectorKeepStrides_dot : ∀ (sh : Shape) (es ss c : List Int), es.length = sh.length → ss.length = sh.length →
+    inBox sh c = true → dot c (Dense.vectorKeepStrides sh es ss) = dot c ss
+  | [], [], [], c, _, _, _ => by cases c <;> simp [Dense.vectorKeepStrides, dot]
+  | [], _ :: _, _, _, h, _, _ => by simp at h
+  | [], [], _ :: _, _, _, h, _ => by simp at h
+  | _ :: _, [], _, _, h, _, _ => by simp at h
+  | _ :: _, _ :: _, [], _, _, h, _ => by simp at h
+  | _ :: _, _ :: _, _ :: _, [], _, _, hb => by simp [inBox] at hb
+  | d :: ds, e :: es, s :: ss, c0 :: cs, h1, h2, hb => by
+    simp only [inBox, Bool.and_eq_true, decide_eq_true_eq] at hb
+    have ih := vectorKeepStrides_dot ds es ss cs (by simpa using h1) (by simpa using h2) hb.2
+    simp only [Dense.vectorKeepStrides, dot, ih]
+    by_cases hd : (d != 1) = true
+    · simp [hd]
+    · have hd1 : d = 1 := by simpa using hd
+      have hc0 : c0 = 0 := by omega
+      subst hc0
+      simp
+
+/-- `Transpose()` of a vector (pending transpose, full-length strides): the storage is untouched, the pending
+    transpose is dropped and every in-box coordinate addresses the cell it addressed before -/
+theorem transpose_vector (st : St) (t : Dense) (o : AP) (hold : t.old = some o) (hv : isVector t.shape = true)
+    (hns : isScalar t.shape = false) (hl : t.ap.strides.length = t.ap.shape.length)
+    (hdl : (Dense.defaultStrides t.ap.o.col t.shape).length = t.ap.shape.length) :
+    ∃ t', Dense.transpose st t = .ok (st, t') ∧ t'.old = none ∧ t'.shape = t.shape ∧ t'.win = t.win ∧
+      ∀ c, inBox t.shape c = true → dot c t'.ap.strides = dot c t.ap.strides := by
+  let st' : List Int := Dense.copyPrefix t.ap.strides
+    (Dense.vectorKeepStrides t.shape (Dense.defaultStrides t.ap.o.col t.shape) t.ap.strides)
+  let ap' : AP := { t.ap with strides := st' }
+  refine ⟨{ t with ap := ap', old := none, tw := none }, ?_, rfl, rfl, rfl, ?_⟩
+  · unfold Dense.transpose
+    simp only [hold, hns, hv, Bool.false_eq_true, if_false, if_true, pure, Except.pure]
+    rfl
+  · intro c hc
+    show dot c (Dense.copyPrefix t.ap.strides (Dense.vectorKeepStrides t.shape _ t.ap.strides)) = _
+    rw [copyPrefix_full _ _ (by rw [vectorKeepStrides_length]; exact hdl.trans hl.symm)]
+    exact vectorKeepStrides_dot t.shape _ t.ap.strides c hdl hl hc
+
 /-- the two possible outcomes of a successful `T` on a tensor with no pending transpose -/
 theorem denseT_cases (st : St) (t : Dense) (axes : List Int) (hold : t.old = none) (st' : St)
     (t' : Dense) (h : Dense.T st t axes = .ok (st', t')) :
